@@ -60,8 +60,13 @@ func VerifC05Listeners() {
 	if zzverif.Bool("kcp") {
 		cfg.KCPBindPort = 7002
 	}
+	sharedHTTPS := zzverif.Bool("vhostHTTPSOnTheControlPort")
+	if sharedHTTPS {
+		cfg.VhostHTTPSPort = 7000
+	}
 	cfg.Complete()
 	zzNetReset()
+	zzMuxLns = nil
 	zzTLS.pool, zzTLS.quicCfg, zzTLS.quicN, zzTLS.kcpN = nil, nil, 0, 0
 	svr, err := NewService(cfg)
 	zzverif.Assert(err == nil && svr != nil, "C05.listeners.service-created")
@@ -82,13 +87,53 @@ func VerifC05Listeners() {
 			}
 		}
 	}
+	// the shared port: a TLS ClientHello belongs to the https vhost when that shares the port,
+	// to the control channel otherwise; the frp TLS marker byte always to the control channel
+	hello := []byte{0x16, 0x03, 0x01, 0x00, 0x05}
+	if sharedHTTPS {
+		zzverif.Assert(svr.rc.VhostHTTPSMuxer != nil, "C06.listeners.https-vhost-on-the-shared-port")
+		zzverif.Assert(zzMuxRoute(hello) != nil && zzMuxRoute(hello) != svr.tlsListener, "C06.listeners.client-hello-on-the-shared-port-goes-to-the-https-vhost")
+		zzverif.Reach("C06.listeners.shared-https")
+	} else {
+		zzverif.Assert(zzMuxRoute(hello) == svr.tlsListener, "C05.listeners.client-hello-goes-to-the-control-channel")
+	}
+	zzverif.Assert(zzMuxRoute([]byte{0x17, 0x00, 0x00, 0x00, 0x00}) == svr.tlsListener, "C05.listeners.frp-tls-marker-goes-to-the-control-channel")
 	_ = context.Background
 	zzverif.Reach("C05.listeners.done")
 }
 
-// stub for (*golib mux.Mux).Listen (uses reflection-based sort.Slice)
+// stub for (*golib mux.Mux).Listen (uses reflection-based sort.Slice): records the order in which
+// the shared port would consult its listeners (ascending priority, then fewer needed bytes)
+type zzMuxEntry struct {
+	priority  int
+	needBytes uint32
+	fn        gomux.MatchFunc
+	ln        net.Listener
+}
+
+var zzMuxLns []zzMuxEntry
+
 func zzStubMuxListen(m *gomux.Mux, priority int, needBytesNum uint32, fn gomux.MatchFunc) net.Listener {
-	return &zzListener{addr: "mux"}
+	l := &zzListener{addr: "mux"}
+	zzMuxLns = append(zzMuxLns, zzMuxEntry{priority, needBytesNum, fn, l})
+	return l
+}
+
+// zzMuxRoute returns the listener the shared port hands a connection with these first bytes to
+func zzMuxRoute(first []byte) net.Listener {
+	best := -1
+	for i, e := range zzMuxLns {
+		if !e.fn(first) {
+			continue
+		}
+		if best < 0 || e.priority < zzMuxLns[best].priority || (e.priority == zzMuxLns[best].priority && e.needBytes < zzMuxLns[best].needBytes) {
+			best = i
+		}
+	}
+	if best < 0 {
+		return nil
+	}
+	return zzMuxLns[best].ln
 }
 
 // stub for netpkg.NewWebsocketListener (net/http server plumbing)
